@@ -55,6 +55,16 @@ Theorem C06_phrases_one_for_one :
 Proof. exact source_phrases_one_for_one. Qed.
 Print Assumptions C06_phrases_one_for_one.
 
+(** ** The key-sorted invariant behind the binary search: for every source, every trunk array of the
+    built index (second and third syllable level) has strictly increasing keys - what
+    std::lower_bound in find_node relies on, and what makes the model's lookup by key the same search. *)
+Theorem C06_index_keys_sorted :
+  forall (F : Type) (cast : dec -> F) (sort_original : bool) (files : list (colspec * list bytes)),
+  let c := collect_files files in
+  ix_sorted_head F (build_head cast (length (co_syll c)) (compile_vocab sort_original c)).
+Proof. exact @index_keys_sorted_source. Qed.
+Print Assumptions C06_index_keys_sorted.
+
 (** ** same_code_sorted: unless the source asks for the original order, any two enumerated entries
     with the same code appear in non-increasing weight order (for every monotone cast). *)
 Theorem C06_same_code_sorted :
